@@ -9,6 +9,7 @@ import ScVerif.C08.SubscribeGc
 import ScVerif.C08.PipeBus
 import ScVerif.C08.Booking
 import ScVerif.C08.GenId
+import ScVerif.C08.PullId
 /-! Driver handler for C08.
 
 Predicates are the closed family shared with the Go harness: `nil` (no include option) or a truth
@@ -484,6 +485,61 @@ def handleLSched? (n : String) (rest : List String) : Option String := do
       "streams=" ++ "|".intercalate streams.eraseDups]
   pure (" # ".intercalate ((preds.zip s.subs).map showSub) ++ " | pend=" ++ toString s.pend.length)
 
+/-- `pull…` / `burst…` -/
+def handlePullLike? (op p n : String) (ops : List String) : Option String := do
+  if let some o := parseOpName? "pull" op then
+  let p ← parsePred? p
+  let n ← parseNat? n
+  let ops ← ops.mapM parseAct?
+  let ops := ops.map (Act.canon o.canon)   -- `id = c.idInterceptor(id)` at the top of every write
+  if n > ops.length then none
+  let before := runActs 0 [] (ops.take n)
+  let seedEvs := if o.updatesOnly then [] else (seedFrom 0 (sortById (itemSlice p before.1))).map (maskChange o.proj)
+  pure (" ".intercalate (("seed=" ++ showChanges seedEvs) :: pullAfter p o before.1 (ops.drop n)))
+  else
+  let o ← parseOpName? "burst" op
+  let p ← parsePred? p
+  let n ← parseNat? n
+  let ops ← ops.mapM parseAct?
+  let ops := ops.map (Act.canon o.canon)
+  if n > ops.length then none
+  let before := runActs 0 [] (ops.take n)
+  let after := runActs 0 before.1 (ops.drop n)
+  let ins := after.2.map zeroTime
+  let streams := (allEmits (2 * ins.length + 2) MState.init ins).map
+    (fun em => showChanges (em.filterMap (pullStep p o.proj o.equiv)))
+  pure ("|".intercalate streams.eraseDups)
+
+def showSent (l : List (String × Bool)) : String :=
+  if l.isEmpty then "-" else ",".intercalate (l.map (fun vb => vb.1 ++ "/" ++ (if vb.2 then "1" else "0")))
+
+/-- what `PullID`'s loop sends for each later write (nothing any more once it has closed the stream) -/
+def pullIdAfter (p : Option (Pred String String)) (o : PullOpts) (i : String) :
+    Bool → List (String × String) → List (Act String String) → List String × Bool
+  | closed, _, [] => ([], closed)
+  | closed, items, a :: as =>
+    let r := stepAct 0 items a
+    let out := if closed then ([], true) else pullIdLoop i (r.2.filterMap (pullStep p o.proj o.equiv))
+    let rest := pullIdAfter p o i out.2 r.1 as
+    (showSent out.1 :: rest.1, rest.2)
+
+/-- `pullid[:<mask>:<equiv>:<u>[:<icpt>]] <pred> <id> <nBefore> <op>*`: `Collection.PullID(id, WithInclude pred, …)`
+(`ScVerif/C08/PullId.lean`) → `seed=<values sent as seed> <values sent for write 1> … end=<open|closed>
+list=<List(WithInclude) at the end>`; a value reads `<token>/<SeedValue 0|1>`, `-` = nothing sent. -/
+def handlePullId? (o : PullOpts) (p i n : String) (ops : List String) : Option String := do
+  let p ← parsePred? p
+  let n ← parseNat? n
+  let ops ← ops.mapM parseAct?
+  let ops := ops.map (Act.canon o.canon)
+  if n > ops.length then none
+  let before := runActs 0 [] (ops.take n)
+  let seedEvs := if o.updatesOnly then [] else (seedFrom 0 (sortById (itemSlice p before.1))).map (maskChange o.proj)
+  let s := pullId o.canon i seedEvs
+  let rest := pullIdAfter p o (o.canon i) s.2 before.1 (ops.drop n)
+  let final := runActs 0 before.1 (ops.drop n)
+  pure (" ".intercalate (("seed=" ++ showSent s.1) :: rest.1) ++ " end=" ++ (if rest.2 then "closed" else "open")
+    ++ " list=" ++ listOf p o.proj final.1)
+
 def handle? (toks : List String) : Option String :=
   match toks with
   | ["include", p, c] => do
@@ -509,29 +565,11 @@ def handle? (toks : List String) : Option String :=
     let uo ← parseFlag? u
     let proj ← bookingMaskProj m
     handleBPullX? q uo proj n rest
-  | op :: p :: n :: ops => do
-    if let some o := parseOpName? "pull" op then
-    let p ← parsePred? p
-    let n ← parseNat? n
-    let ops ← ops.mapM parseAct?
-    let ops := ops.map (Act.canon o.canon)   -- `id = c.idInterceptor(id)` at the top of every write
-    if n > ops.length then none
-    let before := runActs 0 [] (ops.take n)
-    let seedEvs := if o.updatesOnly then [] else (seedFrom 0 (sortById (itemSlice p before.1))).map (maskChange o.proj)
-    pure (" ".intercalate (("seed=" ++ showChanges seedEvs) :: pullAfter p o before.1 (ops.drop n)))
-    else
-    let o ← parseOpName? "burst" op
-    let p ← parsePred? p
-    let n ← parseNat? n
-    let ops ← ops.mapM parseAct?
-    let ops := ops.map (Act.canon o.canon)
-    if n > ops.length then none
-    let before := runActs 0 [] (ops.take n)
-    let after := runActs 0 before.1 (ops.drop n)
-    let ins := after.2.map zeroTime
-    let streams := (allEmits (2 * ins.length + 2) MState.init ins).map
-      (fun em => showChanges (em.filterMap (pullStep p o.proj o.equiv)))
-    pure ("|".intercalate streams.eraseDups)
+  | op :: p :: n :: ops =>
+    match parseOpName? "pullid" op, ops with
+    | some o, nb :: rest => handlePullId? o p n nb rest
+    | some _, [] => none
+    | none, _ => handlePullLike? op p n ops
   | _ => none
 
 def handle (toks : List String) : String :=
